@@ -420,6 +420,9 @@ func c10Check(c *fw.Ctx, L, R *c10Side, outText, via string, payload interface{}
 	}
 }
 
+// c10CompiledQuery: parsed once per worker process, evaluated for many pairs.
+var c10CompiledQuery *q.Engine
+
 func c10Run(c *fw.Ctx, i int) {
 	r := c.R
 	scen := c10Scenarios[i%len(c10Scenarios)]
@@ -556,10 +559,19 @@ func c10Run(c *fw.Ctx, i int) {
 		var buf bytes.Buffer
 		var qerr error
 		if pi := fw.Try(func() {
-			var e *q.Engine
-			e, qerr = q.NewParser().ParseString("MergeDocumentsAndIndividuals(Document1, Document2)")
-			if qerr != nil {
-				return
+			// every second case uses a query that was compiled once and has
+			// been evaluated for other pairs of documents before
+			e := c10CompiledQuery
+			if e == nil || i%2 == 0 {
+				e, qerr = q.NewParser().ParseString("MergeDocumentsAndIndividuals(Document1, Document2)")
+				if qerr != nil {
+					return
+				}
+				if c10CompiledQuery == nil {
+					c10CompiledQuery = e
+				}
+			} else {
+				c.Count("query-path-compiled-query-used-again", 1)
 			}
 			var res interface{}
 			res, qerr = e.Evaluate([]*gedcom.Document{ld2, rd2})
